@@ -270,6 +270,89 @@ class StdPeer:
         return self.out.read()
 
 
+class StrictSniClient:
+    """a strict verifying client that puts an arbitrary string - in particular an IP literal - into the
+    server_name extension.  stdlib ssl refuses to do that (it sends no SNI for IP literals), so this one endpoint is
+    built on pyOpenSSL: VERIFY_PEER, X509_V_FLAG_X509_STRICT, host / IP check of exactly `identity`, trusting only
+    `cafile`.  Same interface as StdPeer."""
+
+    def __init__(self, cafile: str, identity: str, tls: str | None = None):
+        from OpenSSL import SSL
+
+        self._SSL = SSL
+        c = SSL.Context(SSL.TLS_CLIENT_METHOD)
+        if tls:
+            v = {"1.2": SSL.TLS1_2_VERSION, "1.3": SSL.TLS1_3_VERSION}[tls]
+            c.set_min_proto_version(v)
+            c.set_max_proto_version(v)
+        c.load_verify_locations(cafile)
+        c.set_verify(SSL.VERIFY_PEER, None)
+        self.obj = SSL.Connection(c, None)
+        param = SSL._lib.SSL_get0_param(self.obj._ssl)
+        SSL._lib.X509_VERIFY_PARAM_set_flags(param, SSL._lib.X509_V_FLAG_X509_STRICT)
+        SSL._lib.X509_VERIFY_PARAM_set_hostflags(param, SSL._lib.X509_CHECK_FLAG_NO_PARTIAL_WILDCARDS | getattr(SSL._lib, "X509_CHECK_FLAG_NEVER_CHECK_SUBJECT", 0))
+        try:
+            packed = ipaddress.ip_address(identity).packed
+            ok = SSL._lib.X509_VERIFY_PARAM_set1_ip(param, packed, len(packed))
+        except ValueError:
+            name = identity.encode("idna")
+            ok = SSL._lib.X509_VERIFY_PARAM_set1_host(param, name, len(name))
+        if ok != 1:
+            raise HarnessError("cannot configure the verifier for %r" % identity)
+        self.obj.set_tlsext_host_name(identity.encode("idna"))
+        self.obj.set_connect_state()
+        self.done = False
+        self.error: Exception | None = None
+        self.plain = bytearray()
+        self.got_close_notify = False
+        self.fed = 0
+
+    def feed(self, data: bytes):
+        if data:
+            self.fed += len(data)
+            self.obj.bio_write(data)
+
+    def _out(self) -> bytes:
+        out = bytearray()
+        while True:
+            try:
+                out += self.obj.bio_read(65535)
+            except self._SSL.WantReadError:
+                return bytes(out)
+
+    def step(self) -> bytes:
+        SSL = self._SSL
+        if self.error is None and not self.done:
+            try:
+                self.obj.do_handshake()
+                self.done = True
+            except SSL.WantReadError:
+                pass
+            except SSL.Error as e:
+                res = SSL._lib.SSL_get_verify_result(self.obj._ssl)
+                txt = SSL._ffi.string(SSL._lib.X509_verify_cert_error_string(res)).decode()
+                self.error = RuntimeError("%r (verify result: %s)" % (e, txt))
+        if self.error is None and self.done and not self.got_close_notify:
+            while True:
+                try:
+                    self.plain += self.obj.recv(65535)
+                except SSL.WantReadError:
+                    break
+                except SSL.ZeroReturnError:
+                    self.got_close_notify = True
+                    break
+                except SSL.Error as e:
+                    self.error = e
+                    break
+        return self._out()
+
+    def write(self, data: bytes, piece: int = 0) -> bytes:
+        if not self.done:
+            raise HarnessError("peer write before its handshake completed")
+        self.obj.sendall(data)
+        return self._out()
+
+
 def tls_records(stream: bytes):
     """split a ciphertext stream into TLS records (5-byte header + length); raises HarnessError when it is not one"""
     out, i = [], 0
@@ -387,10 +470,12 @@ class Probe(layer.Layer):
 
 class Rig:
     def __init__(self, side: str, env: dict, *, sni=None, address=("upstream.example", 443), child_opens=True, hold_hooks=False,
-                 sockname=("192.0.2.2", 8080), peername=("192.0.2.9", 50000), server_sni=None, greeting=b"", server_certs=None):
+                 sockname=("192.0.2.2", 8080), peername=("192.0.2.9", 50000), server_sni=None, greeting=b"", server_certs=None, proxy_address=None):
         """side 'client': ClientTLSLayer on context.client (the server connection is plain and open).
         side 'server': ServerTLSLayer on context.server; child_opens=True: the probe opens it with OpenConnection,
-        False: it is already open when the stack starts (eager)."""
+        False: it is already open when the stack starts (eager).
+        proxy_address (side 'server'): the TLS connection is not context.server but the connection to an upstream
+        HTTPS proxy, set up the way HttpUpstreamProxy.make does (`--mode upstream:https://...`)."""
         self.side = side
         self.env = env
         self.tc = env["tc"]
@@ -411,10 +496,21 @@ class Rig:
             if not self.child_opens:
                 self.ctx.server.state = ConnectionState.OPEN
         self.top = Top(self.ctx)
-        self.tls = ptls.ClientTLSLayer(self.ctx) if side == "client" else ptls.ServerTLSLayer(self.ctx)
+        proxy = None
+        if side == "server" and proxy_address:
+            proxy = connection.Server(address=proxy_address)
+            proxy.alpn_offers = ptls.HTTP1_ALPNS
+            proxy.sni = proxy_address[0]
+            if not self.child_opens:
+                proxy.state = ConnectionState.OPEN
+                self.ctx.server.state = ConnectionState.CLOSED
+        if side == "client":
+            self.tls = ptls.ClientTLSLayer(self.ctx)
+        else:
+            self.tls = ptls.ServerTLSLayer(self.ctx, proxy)
         self.top.child = self.tls
         self.tls.child_layer = self.probe = Probe(self.ctx, self)
-        self.tls_conn = client if side == "client" else self.ctx.server
+        self.tls_conn = client if side == "client" else (proxy or self.ctx.server)
         self.other_conn = self.ctx.server if side == "client" else client
         self.q: list = []
         self.held: list = []  # blocking hooks whose completion the caller holds back
